@@ -145,6 +145,41 @@ def build_lib(cfg, quiet=True):
     return final
 
 
+def build_shared(cfg):
+    """Compile /repo/src/*.c for cfg as position-independent code into one shared object (loaded with
+    dlopen/RTLD_LOCAL by the multi-configuration harness)."""
+    h = sha_files(repo_lib_files(), "shared:" + cfg.key())
+    out = os.path.join(BUILD, "lib", h)
+    final = os.path.join(out, "libskinny.so")
+    if os.path.exists(final):
+        os.utime(out, None)
+        return final
+    tmp = tempfile.mkdtemp(prefix="so-", dir=_mk(os.path.join(BUILD, "tmp")))
+    try:
+        def one(src):
+            o = os.path.join(tmp, src[:-2] + ".o")
+            cmd = [cfg.cc, cfg.std, "-fPIC"] + vec_flags(src, cfg.vec128, cfg.vec256) + [cfg.opt, "-I" + os.path.join(REPO, "include")]
+            if cfg.guard:
+                cmd.append("-D" + GUARD)
+            cmd += ["-D" + d for d in cfg.defs] + cfg.cflags + ["-c", "-o", o, os.path.join(REPO, "src", src)]
+            rc, outp = sh(cmd)
+            if rc != 0:
+                raise InfraError("library does not compile (%s): %s\n%s" % (cfg.name, " ".join(cmd), outp[-3000:]))
+            return o
+        with ThreadPoolExecutor(4) as ex:
+            objs = list(ex.map(one, LIB_SOURCES))
+        so = os.path.join(tmp, "libskinny.so")
+        rc, outp = sh([cfg.cc, "-shared", "-o", so] + objs + cfg.cflags)
+        if rc != 0:
+            raise InfraError("shared link failed: " + outp[-2000:])
+        _mk(out)
+        os.replace(so, final)
+    finally:
+        shutil.rmtree(tmp, ignore_errors=True)
+    _prune(os.path.join(BUILD, "lib"), 400)
+    return final
+
+
 def _mk(d):
     os.makedirs(d, exist_ok=True)
     return d
